@@ -72,6 +72,27 @@ class QAssume:
         return r[0]
 
 
+class QAssume2:
+    """hypothesis universally quantified over two integers (e.g. monotonicity of timestamps along a list),
+    instantiated by the engine over pairs of the candle positions in the query"""
+
+    __slots__ = ("_fn", "name", "cache")
+    arity = 2
+
+    def __init__(self, fn, name=""):
+        self._fn = fn
+        self.name = name
+        self.cache = {}
+
+    def fn2(self, a, b):
+        k = (a.get_id(), b.get_id())
+        r = self.cache.get(k)
+        if r is None:
+            r = (self._fn(a, b), a, b)
+            self.cache[k] = r
+        return r[0]
+
+
 _fresh = itertools.count()
 
 
